@@ -213,7 +213,7 @@ fn step_session(
 fn emit_snap(out: &mut impl Write, c: &SnapCase) {
     writeln!(
         out,
-        "gc-run 1 {}\tok {}\tgc-reach {}",
+        "gc-run 1 {}\tok {} Wok/ok\tgc-reach {}",
         c.before, c.after, c.before
     )
     .unwrap();
